@@ -34,7 +34,8 @@ for round in 1 2 3; do
   M=$(missing)
   [ -z "$M" ] && break
   FILTER=""
-  for t in $M; do n=${t#*::}; FILTER="$FILTER${FILTER:+ | }test(=$n)"; done
+  # junit class names have one (`bugstalker`) or two (`bugstalker::dap`) components: try the test name after either
+  for t in $M; do n=${t#*::}; n2=${n#*::}; FILTER="$FILTER${FILTER:+ | }test(=$n) | test(=$n2)"; done
   (cd "$R" && cargo nextest run --workspace --no-fail-fast --tool-config-file pb:/w/lib/nextest.toml --profile pb --test-threads 2 --offline -E "$FILTER") >> "$LOG" 2>&1
   collect
 done
